@@ -1537,6 +1537,15 @@ class ClassicChannel(utils.EventEmitter):
             response.result
             == L2CAP_Configure_Response.Result.FAILURE_UNACCEPTABLE_PARAMETERS
         ):
+            if self.state not in (
+                self.State.WAIT_CONFIG_REQ_RSP,
+                self.State.WAIT_CONFIG_RSP,
+                self.State.WAIT_CONTROL_IND,
+            ):
+                # There's no configuration request that this could be a response to
+                logger.warning(color('invalid state', 'red'))
+                return
+
             # Re-configure with what's suggested in the response
             for option_type, option_value in (
                 L2CAP_Control_Frame.decode_configuration_options(response.options)
